@@ -371,7 +371,7 @@ reg(
     "setpath(p; getpath(p)) for every p in paths, sort is an ordered permutation, unique is the sorted deduplication with strictly increasing neighbours, assignment sets "
     "exactly the assigned path and leaves every unrelated path alone, reverse and explode|implode involutions, keys sorted — on JSON values of every kind (nested, "
     "non-ASCII, extreme numbers, mixed-type arrays for the total order). 22 identities x 9 values quick / 32 thorough. Evaluations needing an unmodelled item are skipped "
-    "and counted (fail closed below 50%). A value family, not all values.",
+    "and counted (fail closed below 90% quick, 80% thorough). A value family, not all values.",
     [only_cfgs(_lazy("jqident", "rule_identities"), ["cli"])],
     quick=["cli"],
     technique="finite-domain evaluation of parser and evaluators' MIR on identity programs over a value family",
@@ -491,7 +491,7 @@ reg(
     "its variant (normal end, error message, break, halt, partial output then one of those); values and endings must agree. Family: 260 programs from the core grammar "
     "(paths, slices, iteration, pipes, comma, construction, arithmetic, comparison, boolean ops, alternative, conditionals, try/catch, reduce/foreach, label/break, optional, "
     "~120 builtins) x JSON inputs incl. duplicate keys and edge numbers (every second program x 8 inputs quick; all x 31 thorough). Pairs needing an unmodelled std / "
-    "external item (regex, io, env, a step budget) are skipped and counted; the rule fails closed below 60% evaluated. FALLBACK: the catch-all edges of eval_single / "
+    "external item (regex, io, env, a step budget) are skipped and counted; the rule fails closed below 85% evaluated (quick; 75% thorough). FALLBACK: the catch-all edges of eval_single / "
     "eval_builtin reach the full evaluator on every path. A program family, not the language.",
     [
         only_cfgs(_lazy("jqeval", "rule_evaluators", floor_share=0.6), ["cli"]),
